@@ -840,6 +840,20 @@ func (w *World) dynTypes(v ssa.Value, visitorType string, depth int, seen map[*s
 		out["?"] = true
 	case *ssa.Call:
 		if f := x.Call.StaticCallee(); f != nil {
+			if f.Name() == "Accept" && f.Pkg == w.Grammar && len(x.Call.Args) == 2 {
+				// the same dispatch on a context of concrete type (statically bound): visitor.Visit<Rule>(ctx)
+				ctxName := grammarCtxName(x.Call.Args[0].Type())
+				vt := visitorType
+				if n := namedOf(stripIdentity(x.Call.Args[1]).Type()); n != nil {
+					vt = n.Obj().Name()
+				}
+				if ctxName != "" && vt != "" {
+					m := lookupFunc(w.Parser, vt, "Visit"+strings.TrimSuffix(ctxName, "Context"))
+					if m != nil && w.isSubjectFunc(m) {
+						return w.returnTypes(m, 0, vt, depth+1, seen)
+					}
+				}
+			}
 			if _, isIface := v.Type().Underlying().(*types.Interface); isIface {
 				vt := visitorType
 				if rn := recvNamed(f); rn == "PacketDslVisitorImpl" || rn == "PacketDslFormattor" {
